@@ -24,6 +24,8 @@ def opts(rng):
         o['stop'] = True
     if rng.random() < 0.2:
         o['color'] = True
+    if rng.random() < 0.12:
+        o['progress'] = True
     if rng.random() < 0.15:
         # post-mortem mode runs the tests through TestCase.debug() in a loop of its own
         # (the debugger finds its stdin at end of file and lets the run end)
